@@ -35,7 +35,8 @@ func Run(r *ev.Run) {
 		"0-3 chain restarts (ResetChain / process restart appending to the same file), two wirings, entries drawn from the content classes whose intact log verifies; " +
 		"(c) logs with an entry longer than 64 KiB; (d) logs written by concurrent goroutines (intact + wrong key only). Edits per log (b): every byte of every protected line " +
 		"(logs <= 2 KiB; sampled otherwise) x 1-2 replacement bytes, delete / swap (adjacent, distant, same index across chains) / duplicate (adjacent, elsewhere, to the end) of each entry, " +
-		"truncation of an entry and of the file at 8-10 offsets per entry, 8 tag replacements, strip/forge of chain markers, appended bytes, JSON member rewrites. " +
+		"truncation of an entry and of the file at 8-10 offsets per entry, 8 tag replacements, strip/forge of chain markers, appended bytes, JSON member rewrites " +
+		"(order, white space, value exchange, two members folded into one name, string <-> number/boolean/null of the same spelling, a member moved into / cut out of the neighbouring string value at the separator word). " +
 		"distinct = (format, wiring, edit kind, region of the line, chain position of the entry, content class) of edits that were judged and detected in time, " +
 		"plus (format, content) of intact logs that verified. Edits the property does not require to be detected are run and counted under not_judged:*."
 	r.Assumptions = []string{
@@ -46,6 +47,9 @@ func Run(r *ev.Run) {
 	}
 	if logging.EndOfAuditLogChainMessage != endMsg {
 		r.Inconclusive("end-of-chain message text differs from the one the generators use: " + logging.EndOfAuditLogChainMessage)
+	}
+	if logging.JSONKeyValueDelimiter != sepWord {
+		r.Inconclusive("separator word of the JSON authenticated bytes differs from the one the re-cut edits use: " + logging.JSONKeyValueDelimiter)
 	}
 	// the verifier warns through the standard logger; keep that cheap (the produced logs never see it:
 	// produce() restores the logger before any verification starts)
@@ -67,6 +71,11 @@ func Run(r *ev.Run) {
 	}
 	for _, k := range []string{"byte-change", "delete", "swap-adjacent", "swap-same-index-across-chains", "duplicate-adjacent", "truncate-entry", "truncate-log", "replace-tag-random", "strip-chain-new", "forge-chain-new", "strip-chain-end"} {
 		r.RequireAtLeast("o2_detected_kind:"+k, 10)
+	}
+	// type / structure changing JSON edits (same spelling): every direction must have been tried and detected
+	for _, k := range []string{"json-retype-string-to-number", "json-retype-string-to-boolean", "json-retype-string-to-null", "json-retype-number-to-string",
+		"json-retype-boolean-to-string", "json-retype-null-to-string", "json-recut-member-moved-into-previous-value", "json-recut-value-cut-into-two-members"} {
+		r.RequireAtLeast("o2_detected_kind:"+k, 5)
 	}
 }
 
@@ -259,7 +268,61 @@ func phaseFull(r *ev.Run, dir string, broken map[string]bool) {
 			jobs = append(jobs, fullJob{L: newProdLog(spec, data, meta)})
 		}
 	}
+	// directed: JSON logs whose field values are strings that spell a number / boolean / null, and numbers / booleans / null,
+	// so that every direction of the type-changing edits, and both re-cut edits, are exercised whatever the seeded logs drew
+	if !broken["json|literal-spelling@value"] && !broken["json|delimiter-recut@value"] {
+		next := 0 // the typed values are dealt in turn, so that every direction occurs whatever the seed
+		for i := 0; i < r.Pick(6, 24); i++ {
+			rng := gen.New(r.Seed, fmt.Sprintf("directed-typed|%d", i))
+			t := baseTime(rng)
+			spec := &logSpec{id: fmt.Sprintf("typed-json-%d", i), t0: t, format: logging.JSONFormatString, wiring: []string{wHandler, wServer}[i%2], key: gen.Bytes(rng, 32), finalize: i%4 != 3}
+			n := 5 + rng.Intn(4)
+			for k := 0; k < n; k++ {
+				t = t.Add(time.Duration(1+rng.Intn(5000)) * time.Millisecond)
+				c := content{"literal-spelling", "value"}
+				if k%2 == 1 {
+					c = content{"delimiter-recut", "value"}
+				}
+				e := buildEntry(rng, c, t)
+				if c.class == "literal-spelling" {
+					e.fields = append(e.fields, typedFields(rng, &next)...)
+				} else {
+					// the name spelled inside the value sorts right behind the name of the field that carries it
+					for x := range e.fields {
+						switch e.fields[x].key {
+						case "data":
+							e.fields[x].val = plainText(rng, 1) + sepWord + sepWord + "delta" + sepWord + plainText(rng, 1+rng.Intn(2))
+						case "zdata":
+							e.fields[x].val = plainText(rng, 1) + sepWord + sepWord + "zz" + sepWord + plainText(rng, 1+rng.Intn(2))
+						}
+					}
+				}
+				spec.steps = append(spec.steps, step{kind: "entry", entry: e})
+				if k == 2 && i%3 == 1 {
+					spec.steps = append(spec.steps, step{kind: "reset"})
+				}
+			}
+			data, meta, err := produce(spec, dir)
+			if err != nil {
+				r.Inconclusive(fmt.Sprintf("producing the log failed: %s: %v", spec.id, err))
+				continue
+			}
+			jobs = append(jobs, fullJob{L: newProdLog(spec, data, meta)})
+		}
+	}
 	runJobs(r, jobs, r.Pick(400, 120), true)
+}
+
+// typedFields: 2-4 fields whose values are strings spelling a JSON literal, or the literals themselves (dealt in turn).
+func typedFields(rng *gen.Rand, next *int) []field {
+	keys := []string{"attempts", "granted", "ok", "ratio", "retries", "none", "count", "offset"}
+	vals := []interface{}{"3", "true", 3, "null", true, "-7", nil, "false", 1.5, "1.5", false, "0", nil, -7, "null", "1e3", int64(1234567890123456789), "false", uint64(18446744073709551615)}
+	var out []field
+	for _, p := range rng.Perm(len(keys))[:2+rng.Intn(3)] {
+		out = append(out, field{keys[p], vals[*next%len(vals)]})
+		*next++
+	}
+	return out
 }
 
 func runJobs(r *ev.Run, jobs []fullJob, byteBudget int, allEdits bool) {
